@@ -16,6 +16,8 @@ mod c03;
 mod c13;
 mod c12;
 mod c15;
+mod c08;
+mod c07;
 
 use common::Tier;
 
@@ -42,6 +44,8 @@ fn main() {
         "C13" => c13::run(tier),
         "C12" => c12::run(tier),
         "C15" => c15::run(tier),
+        "C08" => c08::run(tier),
+        "C07" => c07::run(tier),
         "bind" => { let r = samples::bind_or_die(); println!("rsig ok {} rejected {} ; rdl validations {} exec-error {} skipped {:?}", r.rsig_accepted, r.rsig_rejected, r.rdl_validations, r.rdl_exec_error_validations, r.rdl_skipped); }
         other => {
             eprintln!("unknown property {other}");
